@@ -173,6 +173,36 @@ Lemma trans_stage c q pf a b :
   end = acc pf (trans_hand c q a b).
 Proof. unfold trans_hand. destruct a; pa_cases. Qed.
 
+(* the same stage, whatever way the Rust source spells "unless the action is Nop" (`match action { Nop => (), a => .. }`,
+   `if !matches!(action, Action::Nop) { .. }`, `if action != Action::Nop { .. }`): any term that is `Some (q, pf)` on
+   ANop and the call of perform_action otherwise *)
+Lemma trans_any c q pf a b (T : option (parser * list event)) :
+  (a = ANop -> T = Some (q, pf)) ->
+  (a <> ANop -> T = match g_perform_action c q pf a b with Some (o, o') => Some (o, o') | None => None end) ->
+  T = acc pf (trans_hand c q a b).
+Proof.
+  intros H0 H1. unfold trans_hand.
+  destruct a; try (rewrite H1 by discriminate; pa_cases).
+  rewrite H0 by reflexivity. cbn [acc]. rewrite app_nil_r. reflexivity.
+Qed.
+
+(* the innermost scrutinee of a chain of binds: the stage that is evaluated first *)
+Ltac first_stage T :=
+  lazymatch T with
+  | match ?U with Some _ => _ | None => _ end => first_stage U
+  | _ => constr:(T)
+  end.
+
+Ltac trans_step c q pf a b :=
+  first
+    [ rewrite trans_stage
+    | lazymatch goal with
+      | |- ?L = _ =>
+          let T := first_stage L in
+          rewrite (trans_any c q pf a b T);
+          [ | intros Ha; subst a; reflexivity | intros Ha; destruct a; try congruence; reflexivity ]
+      end ].
+
 Lemma entry_stage c q pf s b :
   match s with
   | CsiEntry | DcsEntry | Escape => match g_perform_action c q pf AClear b with Some (o, o') => Some (o, o') | None => None end
@@ -193,7 +223,7 @@ Proof.
   unfold g_perform_state_change.
   destruct s; try congruence; cbv zeta; rewrite exit_stage;
     (destruct (exit_hand c p b) as [[p1 e1]|]; cbn [acc]; [|reflexivity]);
-    rewrite trans_stage; (destruct (trans_hand c p1 a b) as [[p2 e2]|]; cbn [acc]; [|reflexivity]).
+    trans_step c p1 (perf ++ e1) a b; (destruct (trans_hand c p1 a b) as [[p2 e2]|]; cbn [acc]; [|reflexivity]).
   all: unfold entry_hand; rewrite ?g_perform_action_eq; cbn [acc];
     try (match goal with |- context [perform_action ?c ?q ?x ?b] => destruct (perform_action c q x b) as [[? ?]|] end);
     cbn [acc]; rewrite <- ?app_assoc, ?app_nil_r; reflexivity.
